@@ -745,11 +745,14 @@ class BufferAsyncCalls(Generic[T]):
             try:
                 await _load_inputs(await self._getting)
             except (aio.TimeoutError, aio.CancelledError):
-                await self._run_func(inputs)
+                if await self._run_func(inputs):
+                    # Delivered, don't let another thread clearing the
+                    # event for a new arg cause these to be sent again
+                    return
             else:
                 self.q.task_done()
 
-    async def _run_func(self, inputs: Set[T]) -> None:
+    async def _run_func(self, inputs: Set[T]) -> bool:
         """
         Run :attr:`func` with the given set of inputs and set
         :attr:`event` once it has finished successfully.
@@ -757,14 +760,18 @@ class BufferAsyncCalls(Generic[T]):
         If an exception is raised, log it with its traceback and return
         without setting the event to prevent the buffered inputs from
         being lost.
+
+        :return: True if the inputs were delivered, False to retry
         """
         try:
             if inputs:  # Could be empty if all empty iterators
                 await self.func(inputs)
         except BaseException as e:  # noqa
             logging.exception("Failed to run %s, retrying", self.func)
+            return False
         else:
             self.event.set()
+            return True
 
     def _schedule_with_timeout(self, coro: Awaitable[X]) -> 'aio.Task[X]':
         """
